@@ -36,7 +36,7 @@ def main():
         wt = f"/tmp/seed_{pid}"
         out = f"{wt}/out"
         patch, demo, note = f"{out}/patch{n}.diff", f"{out}/demo{n}.py", f"{out}/note{n}.md"
-        sid = f"{pid}-{n}"
+        sid = f"{pid}-{int(n) + int(os.environ.get('SEED_OFFSET', '0'))}"
         if not (os.path.exists(patch) and os.path.exists(demo)):
             print(sid, "MISSING files")
             continue
